@@ -184,9 +184,10 @@ Definition hist_get_samples_by_timestamp (rule : emit_rule) (cfg : config) (st :
              end in
   ({| st_store := st_store st; st_cache := cache'; st_now := now_ms |}, out).
 
-(* remove_samples([port], from, to): invalidate the port's cache, then remove *)
+(* remove_samples([port], from, to): invalidate the port's cache, remove, invalidate again (since 6506e34) *)
 Definition hist_remove_samples (st : state) (p : Z) (from to : option Z) : state :=
-  {| st_store := base_remove_samples (st_store st) p from to; st_cache := cache_pop (st_cache st) p; st_now := st_now st |}.
+  {| st_store := base_remove_samples (st_store st) p from to; st_cache := cache_pop (cache_pop (st_cache st) p) p;
+     st_now := st_now st |}.
 
 (* HistoryEventHandler.handle_event(ValueChange) + save_sample: [v] is the port's last read value (None = null) *)
 Definition hist_value_change (cfg : config) (st : state) (p : Z) (v : option Z) : state :=
